@@ -1,5 +1,5 @@
 """C11 — a crash while patching never damages what was committed (P-tier: statement-boundary effect order)."""
-from . import findfiles, hashing, manifest, naming, record
+from . import findfiles, hashing, manifest, naming, record, ublock
 
 
 def build(reg):
@@ -7,10 +7,11 @@ def build(reg):
     record.add_open_bindings(reg)
     specs = record.add_lifecycle(reg)
     specs = specs + [x for x in manifest.add_manifest(reg) if x.qual in ("IH5MFRecord.create_stub", "IH5MFRecord.commit_patch")]  # entry points that create / finish containers next to committed ones
+    specs = specs + ublock.add_ublock(reg)  # the single sequential write of text + NUL that the torn-write enumeration relies on; a new block is uncommitted
     specs = specs + findfiles.add_findfiles(reg)  # 'the complete file set' after a crash is what find_files assembles by name: every container of the record, however many
     return {
         "verify": specs,
         "lemmas": [("next-patch-file-is-found-by-name", naming.lemma_next_patch_is_found)],
-        "trusted": hashing.TRUSTED + [record.T1_OPEN, record.T1_X, record.T2_UNLINK, record.T3_HEX, record.T6_UUID] + findfiles.T_FIND,
+        "trusted": hashing.TRUSTED + [record.T1_OPEN, record.T1_X, record.T2_UNLINK, record.T3_HEX, record.T6_UUID] + findfiles.T_FIND + ublock.T_UB,
         "assumptions": ["crash points are statement boundaries between external effects: the proved effect order (exclusive create -> close -> user block -> reopen; close -> hash -> user block -> read-only reopen) bounds what a crash can leave behind; kills inside libhdf5 writes are not modelled"],
     }
